@@ -160,7 +160,7 @@ def hist_force(rng):
 
 
 def hist_evtime(rng):
-    """ticks whose event time runs ahead of / behind the clock (F14 target)"""
+    """ticks whose event time runs ahead of / behind the clock (F71 target)"""
     zn, unit, base = pick(rng)
     z = L.zone(zn)
     num = rng.randint(1, 3)
